@@ -549,6 +549,6 @@ func CheckVarNameOwners(run *core.Run, prog *load.Program) {
 	})
 	run.Count("var_name_reads", nReads)
 	run.Count("var_name_writes", nWrites)
-	run.Floor("G-VARNAME/writers", 2)
+	run.Floor("G-VARNAME/writers", 1)
 	run.Floor("G-VARNAME/readers", 2)
 }
